@@ -508,6 +508,38 @@ def r2_11_reserved_ignored(ctx, prog, rule="R2.11"):
     ctx.floor(rule, "decoders with reserved fields", n, 4)
 
 
+def r2_12_security_features(ctx, prog, rule="R2.12"):
+    ctx.rule(rule, "STUN Security Features (RFC 8489 18.1) in the nonce cookie: a 24-bit field, bit 0 (most significant) = password "
+                   "algorithms, bit 1 = username anonymity; the code keeps it in the top three bytes of a big-endian u32, so "
+                   "the flags are 1 << 31 and 1 << 30; the writer emits to_be_bytes()[..3], the reader fills a zeroed 4-byte "
+                   "array and reads it big-endian")
+    adt = prog.adt("stun_rs::attributes::stun::nonce_cookie::StunSecurityFeatures")
+    got = {v["name"]: int(v["discr"]) if v.get("discr") is not None else None for v in adt["variants"]}
+    want = {"PasswordAlgorithms": 1 << 31, "UserNameAnonymity": 1 << 30}
+    ctx.ob(rule, "flag-values", got == want, "flags %s" % {k: (hex(v) if v is not None else None) for k, v in got.items()})
+    enc = [b for b in prog.bodies.values() if re.search(r"Nonce>::new_nonce_cookie(::<.*>)?$", b.path)]
+    dec = next((b for b in prog.bodies.values() if re.search(r"Nonce>::security_features$", b.path)), None)
+    if not enc or dec is None:
+        ctx.anchor_missing(rule, "Nonce::new_nonce_cookie / Nonce::security_features")
+        return
+    e_calls = [c.callee_path for c in enc[0].calls()]
+    ok_e = any(re.search(r"<impl u32>::to_be_bytes$", c) for c in e_calls) and \
+        any(re.search(r"ops::Index<.*>.*::index$", c) for c in e_calls)
+    # the RangeTo(3) constant
+    three = False
+    for blk in enc[0].blocks:
+        for st in blk["stmts"]:
+            if st["k"] == "assign" and st["rv"]["k"] == "aggregate" and "RangeTo" in str(st["rv"].get("adt", "")):
+                for o in st["rv"]["ops"]:
+                    if o["k"] == "const" and o.get("bits") is not None and int(o["bits"]) == 3:
+                        three = True
+    ctx.ob(rule, "writer", ok_e and three, "new_nonce_cookie: to_be_bytes %s, [..3] %s" % (ok_e, three), enc[0].where())
+    d_calls = [c.callee_path for c in dec.calls()]
+    ok_d = any(re.search(r"BigEndian as byteorder::ByteOrder>::read_u32$|from_be_bytes$", c) for c in d_calls) and \
+        any(re.search(r"decode_slice", c) for c in d_calls)
+    ctx.ob(rule, "reader", ok_d, "security_features: base64 decode_slice into the array, big-endian u32 read: %s" % ok_d, dec.where())
+
+
 
 def check(ctx, env):
     ctx.explanation = (
@@ -532,6 +564,7 @@ def check(ctx, env):
     r2_7_u16_list(ctx, prog)
     r2_10_header_validation(ctx, prog)
     r2_11_reserved_ignored(ctx, prog)
+    r2_12_security_features(ctx, prog)
     c01.r1_6_nested_padding(ctx, prog, rule="R2.8")      # inner padding of the nested PASSWORD-ALGORITHMS list is written where it belongs
     from . import coverage_rules
     coverage_rules.r14_5_write_coverage(ctx, prog, rule="R2.9")   # every byte of an encoded value is written (reserved / padding bytes cannot keep stale data)
